@@ -229,6 +229,31 @@ def m_crash_dup_entry(f, case, viol):
     return bool(lost) and all(any(where.get(p) in pq for pq in pairs) for p in lost)
 
 
+def m_late_parent_event(f, case, viol):
+    """mechanism (C14): the creation event of folder P is delivered late (held back / permuted) while a child of P is already
+    synchronised: the engine creates P on the peer implicitly (mkdirs) without an entry that ties it to the origin's P; when P is
+    then deleted or renamed on the origin before its creation event arrives, the peer's implicit P is never removed/renamed and
+    is copied back.  Needs hold or permute to have been enabled; every differing path must be related to a folder created in
+    the mangled phase that got a child in the mangled phase."""
+    rates = case.get("rates") or {}
+    if not (rates.get("hold") or rates.get("permute")):
+        return False
+    plan = case.get("plan", [])
+    try:
+        k = next(i for i, it in enumerate(plan) if it and it[0] == "X" and it[1] == "mark_synced")
+    except StopIteration:
+        k = -1
+    main = [it for it in plan[k + 1:] if it and it[0] == "U"]
+    parents = []
+    for i, u in enumerate(main):
+        if u[2] == "mkdir" and any(v[2] in ("mkdir", "create", "rename", "rename_dir") and any(q != u[3] and q.startswith(u[3] + "/") for q in _op_paths(v)) for v in main[i + 1:]):
+            parents.append(u[3])
+    paths = _diff_paths(viol)
+    if not parents or not paths:
+        return False
+    return all(any(_related(_unconf(p), q) for q in parents) for p in paths)
+
+
 def _abs_moves(case, kinds):
     """user moves addressed by account paths that cross a sync-root boundary: [(plan index, side, op, inside rel path, outside path, direction)]"""
     roots = tuple(case.get("cfg", {}).get("roots", ("/local", "/remote")))
@@ -288,7 +313,7 @@ def m_moved_out_race(f, case, viol):
     return _paths_related_to_moves(viol, ok)
 
 
-MATCHERS = {"crash_dup_entry": m_crash_dup_entry, "boundary_folder_move": m_boundary_folder_move, "moved_out_race": m_moved_out_race, "crash_rename_over": m_crash_rename_over, "event_exc": m_event_exc, "half_transfer": m_half_transfer, "history": m_history, "rename_race": m_rename_race, "dirdelete_race": m_dirdelete_race}
+MATCHERS = {"late_parent_event": m_late_parent_event, "crash_dup_entry": m_crash_dup_entry, "boundary_folder_move": m_boundary_folder_move, "moved_out_race": m_moved_out_race, "crash_rename_over": m_crash_rename_over, "event_exc": m_event_exc, "half_transfer": m_half_transfer, "history": m_history, "rename_race": m_rename_race, "dirdelete_race": m_dirdelete_race}
 
 
 def match_one(f, case, viol):
